@@ -18,6 +18,18 @@ without touching the directory and ProxyFiles discard their buffers — so
 `except BaseException:` clean-up handlers in the code under test cannot run
 "after death".  reboot() leaves dead state; the directory is then what a
 restarted process would find.
+
+Short writes (optional, off unless armed with `short_at`): the n-th interposed
+call, if it is a kernel write of at least 2 bytes, accepts only a prefix of
+1..len-1 bytes and returns that count WITHOUT raising - what POSIX write(2)
+does when the disk fills up / a quota or RLIMIT_FSIZE is reached in the middle
+of the buffer.  A buffered ProxyFile behaves as Python's BufferedWriter does: it
+issues further kernel writes (each an interposed call of its own) for the rest
+until everything is accepted or one of them raises; an unbuffered one
+(buffering=0, a raw FileIO) returns the short count to its caller.  With
+`short_then` set, the kernel write that follows the short one fails once with
+that errno (ENOSPC, EFBIG, EDQUOT: the condition that cut the write persists);
+otherwise it succeeds (space was freed in between).
 """
 import builtins
 import errno as _errno
@@ -54,6 +66,13 @@ class FS:
         self.bufsize = bufsize
         self.os = OSProxy(self)
         self.crashed_op = None
+        # short-write fault (off by default, see arm())
+        self.short_at = None      # 1-based index of the call which, being a kernel write, accepts only a prefix
+        self.short_len = 0        # bytes it accepts (clamped to 1..len-1)
+        self.short_then = None    # errno with which the kernel write after the short one fails (None: it succeeds)
+        self.short_fired = False
+        self.short_then_fired = False
+        self._short_pending = None
 
     # ---- lifecycle
     def destroy(self):
@@ -70,8 +89,10 @@ class FS:
         self.dead = False
         self.crash_at = None
         self.errno_at = None
+        self.short_at = None
+        self._short_pending = None
 
-    def arm(self, crash_at=None, torn=0, errno_at=None, err=_errno.EIO):
+    def arm(self, crash_at=None, torn=0, errno_at=None, err=_errno.EIO, short_at=None, short_len=1, short_then=None):
         self.n = 0
         self.log = []
         self.crash_at = crash_at
@@ -79,6 +100,12 @@ class FS:
         self.errno_at = errno_at
         self.errno = err
         self.crashed_op = None
+        self.short_at = short_at
+        self.short_len = short_len
+        self.short_then = short_then
+        self.short_fired = False
+        self.short_then_fired = False
+        self._short_pending = None
 
     def rel(self, p):
         if isinstance(p, bytes):
@@ -161,17 +188,38 @@ class ProxyFile:
             except OSError:
                 pass
 
-    def _kernel_write(self, data):
+    def _kernel_write_once(self, data):
+        """One write(2): returns the number of bytes the kernel accepted (all of them unless a short-write fault is armed)."""
         fs = self.fs
         if not data:
-            return
+            return 0
         r = fs.point("write", self.path, len(data))
         if r == "crash":
             k = max(0, min(fs.torn, len(data) - 1))
             if k:
                 self.raw.write(bytes(data[:k]))
             raise SimCrash()
+        if fs._short_pending is not None:
+            # the write after a short one: the condition that cut it short still holds
+            err, fs._short_pending = fs._short_pending, None
+            fs.short_then_fired = True
+            raise OSError(err, os.strerror(err), self.path)
+        if fs.short_at is not None and fs.n == fs.short_at and len(data) >= 2:
+            k = max(1, min(fs.short_len, len(data) - 1))
+            self.raw.write(bytes(data[:k]))
+            fs.short_fired = True
+            fs._short_pending = fs.short_then
+            return k
         self.raw.write(bytes(data))
+        return len(data)
+
+    def _kernel_write(self, data):
+        # what a buffered writer does with its buffer: keep writing until the kernel has taken everything or raises
+        # (without a short-write fault: exactly one kernel write)
+        data = bytes(data)
+        while data:
+            k = self._kernel_write_once(data)
+            data = data[k:]
 
     def write(self, data):
         if self.closed:
@@ -180,8 +228,8 @@ class ProxyFile:
             raise SimCrash()
         data = bytes(data)
         if self.unbuffered:
-            self._kernel_write(data)
-            return len(data)
+            # a raw file: ONE write(2), its count is the caller's business
+            return self._kernel_write_once(data)
         self.buf += data
         while len(self.buf) >= self.fs.bufsize:
             chunk = self.buf[:self.fs.bufsize]
